@@ -727,7 +727,7 @@ def branch_and_bound(tableau, pts1, pts2):
                 return node.simplex.mapping
                 
                 
-        except:
+        except (UNSATException, AssertLowerException, AssertUpperException):
             continue
     
     # print("No integer solution!")
